@@ -58,7 +58,7 @@ Definition strip_float_sign (s : list Z) : Z * list Z :=
 Definition strip_hex_prefix (B : Z) (s : list Z) : bool * list Z :=
   if B =? 2 then
     match s with
-    | 48 :: x :: t => if (x =? 120) || (x =? 88) then (true, t) else (false, s)
+    | c :: x :: t => if (c =? 48) && ((x =? 120) || (x =? 88)) then (true, t) else (false, s)
     | _ => (false, s)
     end
   else (false, s).
@@ -71,7 +71,10 @@ Definition parse_spec (B : Z) (s : list Z) : option (Z * Z * Z) :=
   let r := if hex then 16 else B in
   let per := if hex then 4 else 1 in
   let '(ids, ni, s3) := span_run r s2 in
-  let '(fds, nf, s4) := match s3 with 46 :: t => span_run r t | _ => ([], 0, s3) end in
+  let '(fds, nf, s4) := match s3 with
+                        | c :: t => if c =? 46 then span_run r t else ([], 0, s3)
+                        | [] => ([], 0, s3)
+                        end in
   let runs_ok := ((ni =? 0) || negb (len ids =? 0)) && ((nf =? 0) || negb (len fds =? 0))
                  && negb (len ids + len fds =? 0) in
   let scale := match s4 with
